@@ -296,6 +296,52 @@ pub fn size_boundary_docs() -> Vec<Vec<Node>> {
     out
 }
 
+/// Documents in which a payload of 20..45 bytes (larger than a 16-byte initial capacity: the reader's buffer has to
+/// grow while masters are open) sits inside one to five known-size masters, away from the start of the stream, and
+/// is followed by elements inside and right behind those masters (global ones too).
+pub fn doc_has_raw(doc: &[Node]) -> bool {
+    let mut r = false;
+    crate::refmodel::visit(doc, &mut |n, _| {
+        if matches!(n.kind, Kind::RawLeaf(_)) {
+            r = true;
+        }
+    }, 0);
+    r
+}
+
+pub fn grown_buffer_docs() -> Vec<Vec<Node>> {
+    use crate::spec::*;
+    let lb = |n: usize| Node::leaf(ID_LB, Val::B(vec![0x6c; n]));
+    let void = |n: usize| Node::leaf(ID_VOID, Val::B(vec![0x76; n]));
+    let spine = |inner: Vec<Node>, ku: bool| {
+        let mut k = vec![Node::master(ID_L, inner)];
+        if ku {
+            k.push(Node::leaf(ID_KU, Val::U(3)));
+        }
+        Node::master(ID_M, vec![Node::master(ID_N, vec![Node::master(ID_K, k)])])
+    };
+    let mut out = vec![
+        vec![Node::master(ID_ROOT, vec![spine(vec![lb(40)], false), void(1), void(1), Node::master(ID_M, vec![Node::leaf(ID_MU, Val::U(1))])])],
+        vec![Node::master(ID_ROOT, vec![Node::leaf(ID_B, Val::B(vec![0x62; 40])), Node::leaf(ID_U, Val::U(1)), void(1)])],
+        vec![Node::master(ID_EBML, vec![Node::leaf(ID_EU, Val::U(1))]), Node::master(ID_ROOT, vec![spine(vec![lb(45)], true), Node::leaf(ID_U, Val::U(2)), void(2)])],
+        vec![Node::master(ID_ROOT, vec![Node::leaf(ID_S, Val::S("s".repeat(33))), Node::master(ID_M, vec![Node::leaf(ID_MU, Val::U(1))])]), Node::master(ID_ROOT, vec![Node::leaf(ID_U, Val::U(1))])],
+        vec![Node::master(ID_ROOT, vec![Node::master(ID_M, vec![void(20), Node::leaf(ID_MU, Val::U(1))]), Node::leaf(ID_U, Val::U(1))])],
+        vec![Node::master(ID_ROOT, vec![Node::leaf(ID_U, Val::U(1)), Node::master(ID_M, vec![Node::leaf(ID_MU, Val::U(1)), Node::master(ID_N, vec![Node { id: 0xf2, kind: Kind::RawLeaf(vec![0x72; 30]), size: SizeEnc::Min }, Node::leaf(ID_NU, Val::U(1))]), Node::leaf(ID_MU, Val::U(2))]), Node::leaf(ID_U, Val::U(2))])],
+    ];
+    // empty global elements right behind the masters that end with the large payload (2-byte elements: whatever the
+    // reader believes is left of those masters, one of them fits)
+    out.push(vec![Node::master(ID_ROOT, vec![spine(vec![lb(40)], false), void(0), void(0), void(0), Node::master(ID_M, vec![Node::leaf(ID_MU, Val::U(1))])])]);
+    out.push(vec![Node::master(ID_ROOT, vec![Node::master(ID_M, vec![Node::leaf(ID_MU, Val::U(1)), void(21)]), void(0), void(0), void(1), Node::leaf(ID_U, Val::U(1))])]);
+    // the same with the outermost master of unknown size
+    let mut unk = out[0].clone();
+    unk[0].size = SizeEnc::Unknown(1);
+    out.push(unk);
+    let mut unk = out[2].clone();
+    unk[1].size = SizeEnc::Unknown(8);
+    out.push(unk);
+    out
+}
+
 /// Documents longer than the reader's 64 KiB buffer whose elements with 9..16-byte headers (8-byte size fields,
 /// the 8-byte id of L) sit at every alignment around the buffer boundary. `variant` selects known / unknown-size
 /// encodings of the masters around them.
